@@ -63,8 +63,8 @@ var c05Arms = []c05Arm{
 	{"_timestamp_format.pb.go", ".Format", "TIMESTAMP_FORMAT_UNIX_SECONDS", []string{`json\.Marshal\(\w+\.Unix\(\)\)`}, []string{`time\.Unix\(\w+, 0\)`, `\.Format\(time\.RFC3339Nano\)`}},
 	{"_timestamp_format.pb.go", ".Format", "TIMESTAMP_FORMAT_UNIX_MILLIS", []string{`json\.Marshal\(\w+\.UnixMilli\(\)\)`}, []string{`time\.UnixMilli\(\w+\)`, `\.Format\(time\.RFC3339Nano\)`}},
 	{"_timestamp_format.pb.go", ".Format", "TIMESTAMP_FORMAT_DATE", []string{`\.Format\(("2006-01-02"|time\.DateOnly)\)`}, []string{`time\.Parse\(("2006-01-02"|time\.DateOnly), \w+\)`, `\.Format\(time\.RFC3339Nano\)`}},
-	{"_empty_behavior.pb.go", ".Behavior", "EMPTY_BEHAVIOR_NULL", []string{`= \[\]byte\("null"\)`}, []string{`== "null"`}},
-	{"_empty_behavior.pb.go", ".Behavior", "EMPTY_BEHAVIOR_OMIT", []string{`delete\(\w+, `}, nil},
+	{"_empty_behavior.pb.go", ".Behavior", "EMPTY_BEHAVIOR_NULL", []string{`= \[\]byte\("null"\)`, `proto\.Size\(x\.[^)]*\) == 0`}, []string{`== "null"`}},
+	{"_empty_behavior.pb.go", ".Behavior", "EMPTY_BEHAVIOR_OMIT", []string{`delete\(\w+, `, `proto\.Size\(x\.[^)]*\) == 0`}, nil},
 	{"_nullable.pb.go", "", "", []string{`= \[\]byte\("null"\)`}, []string{`== "null"`, `delete\(\w+, `}},
 }
 
